@@ -631,6 +631,29 @@ def pdf_colour_space(variant: str) -> tuple[bytes, dict]:
     return out, {"has": [tag, "end" + tag], "not": []}
 
 
+def pdf_big(variant: str) -> tuple[bytes, dict]:
+    """An ordinary, unencrypted PDF of a little more than 10 MiB that contains images: the colour-space page plus an unreferenced, uncompressed
+    ballast stream.  Heavy: not in all_sources() / groups(); the isolation check builds its own history steps from it."""
+    base, _t = pdf_colour_space("plain" if variant == "images" else "array")
+    tag = "isopdfbig" + variant
+    cut = base.rindex(b"xref\n")
+    body = base[:cut]
+    n_obj = 8
+    ballast = (b"%% ballast " + tag.encode() + b" ") * 1 + b"0123456789abcdef" * (11 * 1024 * 1024 // 16)
+    offs = []
+    pos = 0
+    import re as _re
+    for m in _re.finditer(rb"(?m)^(\d+) 0 obj\n", body):
+        offs.append(m.start())
+    extra_off = len(body)
+    body += b"%d 0 obj\n<< /Length %d >>\nstream\n" % (n_obj + 1, len(ballast)) + ballast + b"\nendstream\nendobj\n"
+    offs.append(extra_off)
+    x = len(body)
+    out = body + b"xref\n0 %d\n0000000000 65535 f \n" % (len(offs) + 1) + b"".join(b"%010d 00000 n \n" % p_ for p_ in offs)
+    out += b"trailer\n<< /Size %d /Root 1 0 R >>\nstartxref\n%d\n%%%%EOF\n" % (len(offs) + 1, x)
+    return out, {"has": [], "not": []}
+
+
 # ------------------------------------------------------------------------------------------------------------ mail: sub-objects of different sizes, attachments the name alone cannot route
 def _mbox_wrap(messages: list[bytes]) -> bytes:
     return b"".join(b"From sender@iso.example Mon Jan  2 03:04:05 2023\n" + m.replace(b"\r\n", b"\n") + b"\n" for m in messages)
@@ -825,6 +848,7 @@ FAMILIES = {
     "unb-html": ("html", lambda v: unbalanced("html", v), ".html", UNBALANCED_FORMS),
     "unb-mhtml": ("mhtml", lambda v: unbalanced("mhtml", v), ".mhtml", UNBALANCED_FORMS),
     "pdf-cs": ("pdf", pdf_colour_space, ".pdf", ["plain", "array", "nested-dict"]),     # not in any group: for the purity check only
+    "pdf-big": ("pdf", pdf_big, ".pdf", ["images", "images2"]),      # heavy (>= 10 MiB): see HEAVY_FAMILIES
     "pdf-font": ("pdf", pdf_font, ".pdf", ["A", "B", "C", "D"]),
     "pdf-font-own": ("pdf", lambda v: pdf_font(v, own_font=True), ".pdf", ["A", "B", "C", "D"]),
     "mbox-sized": ("mbox", lambda v: mail_sized("mbox", v), ".mbox", MAIL_SIZED + ["box"]),
@@ -863,6 +887,8 @@ def feature(src, kind: str = "") -> str:
     if src[1] == "drop":
         return f"{kind or 'package'}-optional-parts-removed"
     fam, var = src[1], str(src[2]).split(":")[0]
+    if fam == "pdf-big":
+        return "pdf-10MiB-with-images"
     if fam == "pdf-cs":
         return "pdf-colour-space" + ("-nested-dictionary" if var == "nested-dict" else "")
     fixed = {"rtf-cp": "rtf-cp", "epub-multi": "epub-first-match-candidates", "html-multi": "html-first-match-candidates", "plain": "plain",
@@ -883,9 +909,12 @@ def feature(src, kind: str = "") -> str:
     return fam + ("-" + stem if stem else "")
 
 
+HEAVY_FAMILIES = {"pdf-big"}
+
+
 def all_sources() -> list[tuple[str, list]]:
     """[(kind, source)] of every family x variant."""
-    return [(spec[0], ["iso", fam, v]) for fam, spec in FAMILIES.items() for v in spec[3] if spec[0] != "route"]
+    return [(spec[0], ["iso", fam, v]) for fam, spec in FAMILIES.items() for v in spec[3] if spec[0] != "route" and fam not in HEAVY_FAMILIES]
 
 
 def groups() -> list[dict]:
